@@ -141,6 +141,9 @@ class Gen:
     def tick(self):
         self.ops.append("t")
 
+    def client_pex(self, on):
+        self.ops.append("P1" if on else "P0")
+
     def block(self, i, b):
         if i in self.used:
             # partial writes: small steps only for small metadata (each step is a real pump round in the harness)
@@ -221,8 +224,10 @@ def gen_pex(r, size, priv):
                     if r.random() < 0.7:
                         f.append("m" + str(r.randrange(1, 5)))
                     g.batch(int(i), ["H" + ",".join(f)])
-        elif c < 0.65:
+        elif c < 0.6:
             g.tick()
+        elif c < 0.65:
+            g.client_pex(r.random() < 0.7)
         elif c < 0.8 and g.conn:
             g.close(r.choice(sorted(g.conn)))
         elif c < 0.92 and g.used:
@@ -422,6 +427,9 @@ HAND = [
     (40000, False, 40, "e0 b0:Hm3,x1,p7000 b0:M2.0.0 b0:M2.0.1 b0:M2.0.2 t c1 b1:Hx2,p5 t"),
     (40000, False, 40, "e0 b0:Hm3,x1,p7000 w0:0 b0:M2.0.0/M2.0.1/M2.0.2 w0:drip997 t e1 b1:Hx2,p5,m1 w0:0 w1:0 t b1:M2.0.2 w0:drip4096 w1:drip509 t"),
     (300, True, 40, "c0 b0:Hm3 w0:0 b0:M2.0.0/M2.0.0 w0:drip1"),
+    # the client applies its PEX setting: a private torrent must stay silent (DownloadInfo::set_pex_enabled's guard)
+    (300, True, 40, "P1 c0 b0:Hm3,x1,p7000 t c1 b1:Hx2,p5 t P0 P1 c2 b2:Hx3,p9 t t"),
+    (300, False, 40, "P0 c0 b0:Hm3,x1,p7000 t P1 c1 b1:Hx2,p5 t t P0 t c2 b2:Hx3,p9 t P1 t t"),
     (300, False, 40, "e0 b0:Hm3,x1,p7000 t w0:0 e1 b1:Hx2,p5 b0:M2.0.0/M2.0.0 t w0:drip7 t"),
 ]
 
@@ -738,6 +746,8 @@ def oracle(case, impl):
             f = _fields(m.group(2))
             eid = int(f.get("id", "-1"))
             a = adv.get(i, {"m": None, "x": None})
+            if priv and f.get("m::ut_pex", "0") not in ("0",) and eid == 0 and "metadata_size" in f:
+                viol.append(("pex-private", "after '%s' our extension handshake to peer %d advertises ut_pex=%s for a private torrent" % (opname, i, f.get("m::ut_pex"))))
             if "BADBENCODE" in m.group(2):
                 viol.append(("reject-truncated", "after '%s' peer %d received an extended message that is not bencode: %s" % (opname, i, m.group(2)[:100])))
                 continue
